@@ -372,6 +372,13 @@ class lodict(odict):
             super(lodict, self).__setitem__(key.lower(), default)
         return default
 
+    def sift(self, fields=None):
+        """
+        Make fields lowercase then sift
+        """
+        if fields is not None:
+            fields = [field.lower() for field in fields]
+        return super(lodict, self).sift(fields)
 
     def update(self, *pa, **kwa):
         """
